@@ -157,7 +157,8 @@ def run(ctx):
     ctx.instance("C05.key-agreement", "encode[34 before caller fields]", ok,
                  "the MsgSeqNum field is not emitted before the caller-controlled body fields: find_seq_no may read a caller value", loc(eg.nodes[seq_appends[0]].ast))
     before = [(t, a) for nid, t, a in pre_tags if eg.reaches(nid, seq_appends[0], exc=False) and nid in dom[seq_appends[0]]]
-    okb = all(t in ("49", "56") and "session." in unparse(a) for t, a in before)
+    from sa.guards import resolved as _resolved
+    okb = all(t in ("49", "56") and "session." in unparse(_resolved(encf, a)) for t, a in before)
     ctx.instance("C05.key-agreement", "encode[only session fields precede 34]", okb,
                  f"fields {[t for t, _ in before]} precede MsgSeqNum in the body; only the session's CompIDs may", loc(encf))
 
